@@ -86,15 +86,16 @@ fn send_checked(conn: &Connection, payload: &[u8], rep: &mut Report, ctx: &str) 
     }
 }
 
-async fn pair_traffic(args: &Args, multi: bool, relay: bool, rep: &mut Report) {
-    let ctx = format!("pair rt={} relay={relay}", if multi { "multi" } else { "current" });
+async fn pair_traffic(args: &Args, multi: bool, relay: bool, library_defaults: bool, rep: &mut Report) {
+    let ctx = format!("pair rt={} relay={relay}{}", if multi { "multi" } else { "current" }, if library_defaults { " transport=library-defaults" } else { "" });
     let mut t = ends::default_transport();
     t.datagram_receive_buffer_size(Some(4 << 20));
     t.datagram_send_buffer_size(4 << 20);
     let mut t2 = ends::default_transport();
     t2.datagram_receive_buffer_size(Some(4 << 20));
     t2.datagram_send_buffer_size(4 << 20);
-    let pair = match ends::pair(PairOpts { server_transport: Some(t), client_transport: Some(t2), relay }).await {
+    let made = if library_defaults { ends::pair_library_defaults().await } else { ends::pair(PairOpts { server_transport: Some(t), client_transport: Some(t2), relay }).await };
+    let pair = match made {
         Ok(p) => p,
         Err(e) => {
             rep.inconclusive(format!("{ctx}: {e}"));
@@ -222,6 +223,7 @@ async fn limit_case(role: Role, limit: Option<usize>, burn: usize, rep: &mut Rep
         t
     }));
     let live = if burn == 0 {
+        script.burn = 0;
         scen::establish(role, &script, Duration::from_secs(5)).await
     } else {
         // session id > 0: raw client burns bidi streams before CONNECT
@@ -313,9 +315,9 @@ async fn limit_case(role: Role, limit: Option<usize>, burn: usize, rep: &mut Rep
 
 pub fn run(args: &Args) -> Report {
     let mut rep = Report::new();
-    for (multi, relay) in [(true, false), (false, false), (true, true)] {
+    for (multi, relay, defaults) in [(true, false, false), (false, false, false), (true, true, false), (true, false, true)] {
         let rt = crate::runtime(multi, 4);
-        rt.block_on(pair_traffic(args, multi, relay, &mut rep));
+        rt.block_on(pair_traffic(args, multi, relay, defaults, &mut rep));
         rt.shutdown_timeout(Duration::from_millis(200));
     }
     let mut limits: Vec<Option<usize>> = vec![None];
